@@ -195,8 +195,12 @@ func r3clone(c *core.Ctx) {
 		}
 		c.Check(strings.Join(e, " ") == strings.Join(d, " "), R, key, enc.Pos(), strings.Join(e, " "), "%s: the encoder (%s) uses %v but the decoder (%s) uses %v — a value encoded on one side is decoded differently on the other", what, encName, e, decName, d)
 	}
-	pair("aper:constraint-value-guards", "perRawBitData.appendConstraintValue", "perBitData.parseConstraintValue", regexp.MustCompile(`^(\(p1[<>=!]+-?\d+\))$`), "constrained whole number range guards", 3)
-	// the loop-shaped clones are compared textually only where R3.agree could not decide them semantically
+	// the clones of the constrained whole number are compared textually only where R3.agree could not
+	// decide them semantically (it compares the complete case tables range -> first wire operation of
+	// both sides with each other and with X.691, which includes every threshold)
+	if !cvDecided {
+		pair("aper:constraint-value-guards", "perRawBitData.appendConstraintValue", "perBitData.parseConstraintValue", regexp.MustCompile(`^(\(p1[<>=!]+-?\d+\))$`), "constrained whole number range guards", 3)
+	}
 	if !cvDecided {
 		pair("aper:constraint-value-bit-width", "perRawBitData.appendConstraintValue", "perBitData.parseConstraintValue", regexp.MustCompile(`^(\(iv<=8\)|\(\(1<<iv\)>=p1\))$`), "bit-field width loop (1..8 bits, 2^i >= range)", 2)
 	}
@@ -208,7 +212,13 @@ func r3clone(c *core.Ctx) {
 	}
 	pair("aper:integer-range-classes", "perRawBitData.appendInteger", "perBitData.parseInteger", regexp.MustCompile(`^\(phi\(.*\)(<=65536|<=0|<0|==1)\)$`), "value-range classes (1, <=0, <0, <=65536)", 2)
 	pair("aper:length-range-guards", "perRawBitData.appendLength", "perBitData.parseLength", regexp.MustCompile(`^(\(p1[<>=]+-?\d+\))$`), "constrained-length range guards", 2)
-	pair("aper:sequence-of-size-guards", "perRawBitData.parseSequenceOf", "perBitData.parseSequenceOf", regexp.MustCompile(`(p2\.size(?:Lower|Upper)Bound<65536)`), "SEQUENCE OF size-bound guards", 2)
+	// SEQUENCE OF: the evaluator models of both sides (R4.seqof / R3.seqof) decide which count form is used
+	// under which bounds; the textual comparison of the guards is the fallback
+	if _, why := seqofEval(c); why != "" {
+		pair("aper:sequence-of-size-guards", "perRawBitData.parseSequenceOf", "perBitData.parseSequenceOf", regexp.MustCompile(`(p2\.size(?:Lower|Upper)Bound<65536)`), "SEQUENCE OF size-bound guards", 2)
+	} else if _, why2 := seqofEncEval(c); why2 != "" {
+		pair("aper:sequence-of-size-guards", "perRawBitData.parseSequenceOf", "perBitData.parseSequenceOf", regexp.MustCompile(`(p2\.size(?:Lower|Upper)Bound<65536)`), "SEQUENCE OF size-bound guards", 2)
+	}
 	pair("aper:bitstring-size-classes", "perRawBitData.appendBitString", "perBitData.parseBitString", regexp.MustCompile(`^\(phi\(.*\)(>65535|==1)\)$`), "BIT STRING size classes", 2)
 	pair("aper:octetstring-size-classes", "perRawBitData.appendOctetString", "perBitData.parseOctetString", regexp.MustCompile(`^\(phi\(.*\)(>65535|==1)\)$`), "OCTET STRING size classes", 2)
 	// CHOICE index: both sides use range ub+1
